@@ -311,17 +311,26 @@ Frame(b, o, si) ==
                     \cup (IF ~padOk THEN {"nonzero padding"} ELSE {}),
            next |-> endb + 2, ch |-> dec, bs |-> h.bs, hdr |-> h, subs |-> subs.subs, bytes |-> endb + 2 - o]
 
-RECURSIVE FramesFrom(_, _, _, _)
-\* all frames until the data ends or one is invalid
-FramesFrom(b, o, si, acc) ==
+RECURSIVE FramesFromT(_, _, _, _, _)
+\* all frames until the data ends or one has an error outside `tolerated`
+FramesFromT(b, o, si, acc, tolerated) ==
     IF o >= Len(b) THEN acc
     ELSE LET f == Frame(b, o, si) IN
-         IF f.errs # {} THEN Append(acc, f) ELSE FramesFrom(b, f.next, si, Append(acc, f))
+         IF f.errs \ tolerated # {} THEN Append(acc, f) ELSE FramesFromT(b, f.next, si, Append(acc, f), tolerated)
+FramesFrom(b, o, si, acc) == FramesFromT(b, o, si, acc, {})
 
 -----------------------------------------------------------------------------
 (* Whole stream                                                             *)
 NoSI == [minbs |-> 0, maxbs |-> 0, minfs |-> 0, maxfs |-> 0, rate |-> -1, ch |-> 0, bps |-> 0,
          totalHi |-> 0, totalLo |-> 0, md5 |-> [k \in 1..16 |-> 0]]
+\* errors a decoder is not required to report (see MustRejectErrorsOf)
+Lenient == {"partition order does not divide the block", "nonzero padding", "subframe padding bit set",
+            "sample exceeds subframe depth", "decoded sample exceeds bit depth"}
+ParseStreamT(b, tolerated) ==
+    LET m == Meta(b)
+        si == IF m.blocks # <<>> /\ m.blocks[1].type = 0 /\ m.blocks[1].len = 34 THEN StreamInfo(b, m.blocks[1].off) ELSE NoSI
+        fs == IF m.ok /\ si.bps > 0 THEN FramesFromT(b, m.end, si, <<>>, tolerated) ELSE <<>>
+    IN [meta |-> m, si |-> si, frames |-> fs, framesStart |-> m.end]
 ParseStream(b) ==
     LET m == Meta(b)
         si == IF m.blocks # <<>> /\ m.blocks[1].type = 0 /\ m.blocks[1].len = 34 THEN StreamInfo(b, m.blocks[1].off) ELSE NoSI
@@ -365,4 +374,28 @@ StreamErrorsOf(b, st) ==
                \cup (IF si.maxfs # 0 /\ si.maxfs # (CHOOSE x \in sizes : \A y \in sizes : x >= y) THEN {"STREAMINFO max frame size"} ELSE {})
              ELSE {})
 StreamErrors(b) == StreamErrorsOf(b, ParseStream(b))
+
+(* What a decoder must refuse (C05): grammar / checksum errors in any frame, frames that   *)
+(* disagree with STREAMINFO, blocks larger than advertised, and - when the total is known - *)
+(* a sample count different from it.  (Frame numbering, frame-size extrema, the blocking    *)
+(* flag and a partition order that does not divide the block are NOT in this set: RFC 9639  *)
+(* decoders, the reference one included, do not check them.)                                *)
+MustRejectErrorsOf(b, st) ==
+    LET fs == st.frames
+        n == Len(fs)
+        si == st.si
+        frameErrs == UNION {{<<i, e>> : e \in fs[i].errs \ Lenient} : i \in 1..n}
+        total == FoldLeft(LAMBDA a, f : a + f.bs, 0, fs)
+        known == si.totalHi # 0 \/ si.totalLo # 0
+    IN (IF ~HasTag(b) THEN {"no fLaC tag"} ELSE {})
+       \cup (IF ~st.meta.ok THEN {"metadata truncated"} ELSE {})
+       \cup (IF si.bps = 0 THEN {"no STREAMINFO first"} ELSE {})
+       \cup frameErrs
+       \cup (IF frameErrs = {} /\ n > 0 THEN
+               (IF \E i \in 1..n : fs[i].bs > si.maxbs THEN {"block larger than advertised"} ELSE {})
+               \cup (IF \E i \in 1..n : fs[i].hdr.nch # si.ch \/ fs[i].hdr.bps # si.bps \/ fs[i].hdr.rate # si.rate
+                     THEN {"frame header disagrees with STREAMINFO"} ELSE {})
+               \cup (IF known /\ TotalOf(si) # total THEN {"STREAMINFO total samples"} ELSE {})
+             ELSE {})
+       \cup (IF frameErrs = {} /\ n = 0 /\ known THEN {"STREAMINFO total samples"} ELSE {})
 =======================================================================
